@@ -41,6 +41,17 @@ def gen_docs(ck):
                 md['info']['files'][0]['x-attr'] = {key: val}
             else:
                 md['z-list'] = [{key: val}, [{key: val}]]
+        if rng.random() < 0.15:
+            # a declared legacy encoding: byte strings that are not UTF-8 stay byte strings whatever it says
+            md['encoding'] = rng.choice(['latin-1', 'GBK', 'Shift_JIS', 'cp1252', 'UTF-8'])
+            where = rng.choice(['comment', 'name', 'extra'])
+            raw = rng.choice([b'\xd6\xd0\xce\xc4', b'\x93\xfa\x96\x7b', b'caf\xe9', b'\xffraw'])
+            if where == 'comment':
+                md['comment'] = raw
+            elif where == 'name':
+                md['info']['name'] = raw
+            else:
+                md['x-legacy'] = {'title': raw, 'list': [raw, 'utf8 ok']}
         out.append(md)
     return out
 
